@@ -24,6 +24,15 @@ func genC15(t *rapid.T) RaceCase {
 					op.Via = rapid.SampledFrom([]string{"reader", "create"}).Draw(t, "via")
 				}
 			}
+			switch rapid.IntRange(0, 9).Draw(t, "failing") {
+			case 0:
+				op.Key = -1 // empty key
+				if k == "set" && rapid.Bool().Draw(t, "failingCreate") {
+					op.Via, op.Len = "create", max(op.Len, 1)
+				}
+			case 1:
+				op.Late = true
+			}
 			script = append(script, op)
 		}
 		rc.Workers = append(rc.Workers, script)
